@@ -71,7 +71,7 @@ theorem stpcpy_s_C03 (cfg : Cfg) (dest dmax src : Nat) (destbos : Bos) (st : St)
       ∃ i, i < dmax ∧ st'.data (dest + i) = 0 := by
   obtain ⟨r, st', he, _, hq⟩ := stpcpy_s_ext cfg dest dmax src destbos none st hs.all (fun _ => hrw) hb
   obtain ⟨h1, h2⟩ := hq ⟨hd, hpos, hle⟩
-  exact ⟨r, st', he, (h1.post (fun h => h2 h rfl)).term⟩
+  exact ⟨r, st', he, (h1.post (Or.inl (fun h => h2 h rfl))).term⟩
 
 /- FULL statement for a known source size (FALSE of the code, see `stpcpy_s_C03_witness`):
    ∃ r st', exec (stpcpy_s cfg dest dmax src destbos srcbos) st = .ok (r, st') ∧ ∃ i, i < dmax ∧ st'.data (dest+i) = 0 -/
@@ -85,7 +85,28 @@ theorem stpcpy_s_C03_partial (cfg : Cfg) (dest dmax src : Nat) (destbos srcbos :
       (r.2 ≠ ESUNTERM → ∃ i, i < dmax ∧ st'.data (dest + i) = 0) := by
   obtain ⟨r, st', he, _, hq⟩ := stpcpy_s_ext cfg dest dmax src destbos srcbos st hs.all (fun _ => hrw) hb
   obtain ⟨h1, h2⟩ := hq ⟨hd, hpos, hle⟩
-  exact ⟨r, st', he, h2, fun h => (h1.post h).term⟩
+  exact ⟨r, st', he, h2, fun h => (h1.post (Or.inl h)).term⟩
+
+/-- The FULL statement, true of the current tree (e5bca6e: the `src unterminated` exit clears dest like the other exits reached
+after copying began): stpcpy_s with ANY knowledge of the two object sizes leaves a NUL within dmax -/
+theorem stpcpy_s_C03_fixed (cfg : Cfg) (hfx : cfg.fixStpUnterm = true) (dest dmax src : Nat) (destbos srcbos : Bos) (st : St)
+    (hs : Setting st) (hrw : RW st dest dmax) (hd : dest ≠ 0) (hpos : 0 < dmax) (hle : dmax ≤ RSIZE_MAX_STR)
+    (hb : ∀ b, destbos = some b → dmax ≤ b) :
+    ∃ r st', exec (stpcpy_s cfg dest dmax src destbos srcbos) st = .ok (r, st') ∧
+      ∃ i, i < dmax ∧ st'.data (dest + i) = 0 := by
+  obtain ⟨r, st', he, _, hq⟩ := stpcpy_s_ext cfg dest dmax src destbos srcbos st hs.all (fun _ => hrw) hb
+  obtain ⟨h1, _⟩ := hq ⟨hd, hpos, hle⟩
+  exact ⟨r, st', he, (h1.post (Or.inr hfx)).term⟩
+
+/-- the same for stpncpy_s: any `slen`, any knowledge of the object sizes -/
+theorem stpncpy_s_C03_fixed (cfg : Cfg) (hfx : cfg.fixStpUnterm = true) (dest dmax src slen : Nat) (destbos srcbos : Bos) (st : St)
+    (hs : Setting st) (hrw : RW st dest dmax) (hd : dest ≠ 0) (hpos : 0 < dmax) (hle : dmax ≤ RSIZE_MAX_STR)
+    (hb : ∀ b, destbos = some b → dmax ≤ b) (hsb : ∀ sb, srcbos = some sb → slen ≤ sb) :
+    ∃ r st', exec (stpncpy_s cfg dest dmax src slen destbos srcbos) st = .ok (r, st') ∧
+      ∃ i, i < dmax ∧ st'.data (dest + i) = 0 := by
+  obtain ⟨r, st', he, _, hq⟩ := stpncpy_s_ext cfg dest dmax src slen destbos srcbos st hs.all (fun _ => hrw) hb hsb
+  obtain ⟨h1, _⟩ := hq ⟨hd, hpos, hle⟩
+  exact ⟨r, st', he, (h1.post (Or.inr hfx)).term⟩
 
 /-- dest = 3 cells of non-zero garbage at 100, src = "ab" at 200 -/
 def wStp : St :=
@@ -93,10 +114,10 @@ def wStp : St :=
     mapped := fun _ => true, rd := fun _ => true
     wr := fun a => decide (100 ≤ a ∧ a < 103) }
 
-/-- the excluded point: `stpcpy_s(d, 3, "ab")` compiled with `BOS(src) = 1` copies 'a', reports
+/-- the excluded point BEFORE e5bca6e (switch off): `stpcpy_s(d, 3, "ab")` compiled with `BOS(src) = 1` copies 'a', reports
 ESUNTERM, returns NULL — and dest[0..3) = 'a', garbage, garbage holds no NUL -/
 theorem stpcpy_s_C03_witness :
-    ∃ st', exec (stpcpy_s {} 100 3 200 none (some 1)) wStp = .ok ((0, ESUNTERM), st') ∧
+    ∃ st', exec (stpcpy_s { fixStpUnterm := false } 100 3 200 none (some 1)) wStp = .ok ((0, ESUNTERM), st') ∧
       ¬ ∃ i, i < 3 ∧ st'.data (100 + i) = 0 := by
   refine ⟨_, rfl, ?_⟩
   intro ⟨i, hi, h⟩
@@ -111,7 +132,7 @@ theorem stpncpy_s_C03 (cfg : Cfg) (dest dmax src slen : Nat) (destbos srcbos : B
       ∃ i, i < dmax ∧ st'.data (dest + i) = 0 := by
   obtain ⟨r, st', he, _, hq⟩ := stpncpy_s_ext cfg dest dmax src slen destbos srcbos st hs.all (fun _ => hrw) hb hsb
   obtain ⟨h1, h2⟩ := hq ⟨hd, hpos, hle⟩
-  exact ⟨r, st', he, (h1.post h2).term⟩
+  exact ⟨r, st', he, (h1.post (Or.inl h2)).term⟩
 
 /-- non-vacuity: dest = 5 writable cells at 100 inside a known object of 20 bytes (wide) / 5 bytes (narrow) -/
 example : Setting exSt ∧ RW exSt 100 5 ∧ (100 : Nat) ≠ 0 ∧ 0 < 5 ∧ 5 ≤ RSIZE_MAX_WSTR ∧ 5 ≤ RSIZE_MAX_STR ∧
@@ -557,16 +578,16 @@ def wEnv : St :=
     mapped := fun _ => true, rd := fun _ => true
     wr := fun a => decide (1000 ≤ a ∧ a < 1000 + 4097) }
 
-/-- the excluded point of getenv_s_C03 (NEW finding): object size KNOWN (destbos = dmax = 4097 > RSIZE_MAX_STR = 4096),
+/-- the excluded point of getenv_s_C03 BEFORE abc5a20 (switch `fixInnerBos` off): object size KNOWN (destbos = dmax = 4097 > RSIZE_MAX_STR = 4096),
 variable set to "aa": getenv_s returns EOK and *len = 2 although the constraint handler was invoked with ESLEMAX by
 the inner strcpy_s, and dest is untouched: no NUL in dest[0..dmax). getenv_s(&len, dest, 4097, "A") with
 char dest[4097], A=aa. -/
 theorem getenv_s_C03_witness :
     RW wEnv 1000 4097 ∧
-    ∃ st', exec (getenv_s {} true 1000 4097 300 (some 4097) 200) wEnv = .ok ((EOK, some 2), st') ∧
+    ∃ st', exec (getenv_s { fixInnerBos := false } true 1000 4097 300 (some 4097) 200) wEnv = .ok ((EOK, some 2), st') ∧
       st'.events = [.handler .str ESLEMAX] ∧ st'.data = wEnv.data ∧
       ¬ ∃ i, i < 4097 ∧ st'.data (1000 + i) = 0 := by
-  refine ⟨?_, _, getenv_s_bos_lemax {} true 1000 4097 300 4097 200 1 2 wEnv (by decide) (by decide) (by decide)
+  refine ⟨?_, _, getenv_s_bos_lemax { fixInnerBos := false } rfl true 1000 4097 300 4097 200 1 2 wEnv (by decide) (by decide) (by decide)
     (by decide) ?_ (by decide) ?_ (by decide) (by decide), rfl, rfl, ?_⟩
   · intro i hi
     refine ⟨rfl, ?_, rfl⟩
